@@ -238,3 +238,46 @@ Proof.
   change (select current q (with_page lo n k) g) with (select current q lo g).
   destruct (select current q lo g); split; intros H; try discriminate; auto.
 Qed.
+
+(* ---------------------------------------------------------------- without any hypothesis on the rank *)
+Lemma in_window_default : forall p, in_window default_lo p = true.
+Proof. intros p. unfold in_window, default_lo. cbn. destruct (panchor p); reflexivity. Qed.
+
+(* default options, results as a multiset: needs only the index invariant (no assumption that the order of
+   Triple.String() identifies the triple) *)
+Theorem lookup_default_perm : forall g q, GInv g ->
+  exists l, lookup q default_lo g = LOk l /\
+            Permutation l (map (q_proj q) (filter (matches q) (listing g))).
+Proof.
+  intros g q H. unfold lookup, lookup_v, select. cbn [effective_filter default_lo lo_latest lo_filter].
+  eexists. split; [reflexivity|].
+  rewrite page_is_spec_page. unfold spec_page. cbn [lo_max lo_offset]. cbn [Z.gtb Z.compare Z.mul Z.to_nat skipn].
+  apply Permutation_map. etransitivity; [apply sort_perm|].
+  apply NoDup_Permutation.
+  - now apply sel_NoDup.
+  - apply NoDup_filter. now apply NoDup_listing.
+  - intros t. rewrite (sel_In g q default_lo t H). unfold window. rewrite filter_In.
+    fold (candidates q g). rewrite in_window_default. tauto.
+Qed.
+
+(* ---------------------------------------------------------------- observations depend only on the set *)
+(* two graphs (in any two histories) that hold the same set of triples answer every lookup with every options value
+   identically: the result does not depend on how the set was built *)
+Theorem lookup_history_independent : forall g1 g2 q lo,
+  GInv g1 -> GInv g2 -> rank_inj g1 ->
+  (forall k, tget k (idx g1) = tget k (idx g2)) ->
+  lookup q lo g1 = lookup q lo g2.
+Proof.
+  intros g1 g2 q lo H1 H2 Hinj Hsame.
+  assert (Hl : listing g1 = listing g2).
+  { apply ranked_unique.
+    - apply listing_ranked.
+    - apply listing_ranked.
+    - now apply NoDup_listing.
+    - now apply NoDup_listing.
+    - intros t. rewrite !listing_In by assumption. now rewrite Hsame.
+    - exact Hinj. }
+  assert (Hinj2 : rank_inj g2) by (unfold rank_inj in *; now rewrite <- Hl).
+  rewrite !lookup_eq_spec by assumption.
+  unfold spec_lookup, spec_select, candidates. now rewrite Hl.
+Qed.
